@@ -385,7 +385,11 @@ fn gen_c17(ctx: &mut Ctx) {
                 let signs = format!("2 {} {} {} {}", own, style, own.wrapping_add(7), if style == "M" { "A" } else { "M" });
                 let wb = format!("WB {} {} | {}", signs, prior.join(" "), ops.join(" ")).replace("  ", " ");
                 let cl = format!("CL {} {} | {}", signs, prior.join(" "), ops.join(" ")).replace("  ", " ");
+                // the same conversation over streams that fragment every read and write and interrupt them
+                let wbs = format!("WBS{}", &wb[2..]);
+                let rws = ctx.case(wbs.clone(), true, "wire-fragmented");
                 let rw = ctx.case(wb.clone(), true, "wire");
+                ctx.monitor(rws == rw, "C17-transparent", &wbs, "the fragmented wire behaves differently from the plain wire");
                 let rd = ctx.case(cl.clone(), true, "direct");
                 // transparency monitor: success together, same sign observables either way
                 let tw: Vec<&str> = rw.split(" # ").next().unwrap().split(' ').filter(|s| !s.is_empty()).collect();
